@@ -19,7 +19,7 @@ RULE = (
     "Cases = fully discrete models with 1-3 stochastic states (2-3 labels) whose dependency lists are ordered, "
     "shuffled subsets of states, choices and the period, transition arrays with injected zeros and one-hot rows, 1-2 "
     "discrete choices with random utility tables, T=3-4, 20 000 (quick) / 100 000 (thorough) agents whose initial "
-    "states come in contiguous blocks of identical states, two seeds. Oracle per simulation: (1) a label with "
+    "states come in contiguous blocks of identical states, two seeds; in one case of three the probability arrays are supplied as float32 arrays (the oracle uses the rounded, renormalised numbers). Oracle per simulation: (1) a label with "
     "probability 0 in the row selected by the agent's dependencies (signature order) is never drawn - exact; (2) for "
     "every conditioning cell with n>=200 agents and every label the exact two-sided binomial tail probability of the "
     "observed count under the specified p must be >= 1e-10; (3) for two stochastic states, chi-square of the joint "
@@ -74,7 +74,8 @@ def cases(draw):
     spec = Spec(T, states, choices, {k: functions[k] for k in d.perm(list(functions))}, consts, params)
     return {"spec": spec.to_json(), "seed_a": draw(st.integers(0, 2**31 - 1)), "seed_b": draw(st.integers(0, 2**31 - 1)),
             "block": draw(st.sampled_from([1, 7, 50, 500])), "n_small": draw(st.integers(1, 40)),
-            "cross_process": draw(st.sampled_from([0, 0, 0, 1, 4242]))}
+            "cross_process": draw(st.sampled_from([0, 0, 0, 1, 4242])),
+            "shock_dtype": draw(st.sampled_from(["float64", "float64", "float32"]))}
 
 
 def strategy(tier):
@@ -106,11 +107,21 @@ def check(case):
     idx = np.unravel_index(combo, sizes)
     init = {s: idx[i].astype(int) for i, s in enumerate(S)}
     fns = simcheck.get_functions(spec, targets=("solve", "simulate"))
+    sdt = case.get("shock_dtype", "float64")
+    if sdt != "float64":
+        # the probability arrays are supplied in a narrower float type: the distribution is the one
+        # the supplied numbers define (rows renormalised), so the oracle uses the rounded numbers
+        spec = spec.copy()
+        for s_ in list(spec.params["shocks"]):
+            a = np.asarray(spec.params["shocks"][s_]).astype(sdt).astype(float)
+            spec.params["shocks"][s_] = a / a.sum(axis=-1, keepdims=True)
     params = simcheck.to_lcm_params(spec)
+    if sdt != "float64":
+        params["shocks"] = {s_: jnp.asarray(np.asarray(a), dtype=sdt) for s_, a in params["shocks"].items()}
     sol = call_lcm(fns["solve"], params)
 
     def sim(seed):
-        return simcheck.simulate(fns, spec, init, seed, vf_arr_list=sol)
+        return simcheck.simulate(fns, spec, init, seed, vf_arr_list=sol, params=params)
 
     dfa = sim(case["seed_a"])
     dfa2 = sim(case["seed_a"])
@@ -259,7 +270,7 @@ def check(case):
             if m2:
                 msgs.append(f"{ns} agents: " + m2[0])
     # same seed in ANOTHER process (another hash seed) gives the identical frame
-    if not msgs and case.get("cross_process"):
+    if not msgs and case.get("cross_process") and sdt == "float64":
         import json as _json
         import subprocess
         import sys
@@ -293,7 +304,7 @@ def check(case):
         test_frame(dfb, f"seed {case['seed_b']}")
         changed = any(not np.array_equal(np.asarray(dfa[s]), np.asarray(dfb[s])) for s in stoch)
         cnt["other_seed_changes_later_periods"] = int(changed)
-    out = Outcome(digest=dg, classes=[f"stochastic_states_{len(stoch)}", f"block_{blk}"], nontrivial=nt, info=cnt)
+    out = Outcome(digest=dg, classes=[f"stochastic_states_{len(stoch)}", f"block_{blk}", f"shock_arrays_{sdt}"], nontrivial=nt, info=cnt)
     if msgs:
         out.status, out.reason = "violation", msgs[0]
         out.bucket = "draws:" + ("seed" if "seed" in msgs[0] and ("same seed" in msgs[0] or "changing the seed" in msgs[0] or "the same seed" in msgs[0]) else
